@@ -184,14 +184,18 @@ theorem WF_any {α : Type} {p : Prog α} (h : WF noneYet p) (fl : Nat → Bool) 
 /-! ### the decoders of `C10Dec.lean` are seek-first -/
 
 theorem readIndexP_wf {α : Type} (k : Nat) (fl : Nat → Bool) (hk : fl k = true) :
-    ∀ (n : Nat) (acc : Bytes) (cont : Bytes → Prog α), (∀ bs, WF fl (cont bs)) → WF fl (readIndexP k n acc cont) := by
+    ∀ (n im : Nat) (acc : Bytes) (cont : Bytes → Prog α), (∀ bs, WF fl (cont bs)) → WF fl (readIndexP k n im acc cont) := by
   intro n
   induction n with
-  | zero => intro acc cont h; exact h acc
+  | zero => intro im acc cont h; exact h acc
   | succ n ih =>
-    intro acc cont h
+    intro im acc cont h
     unfold readIndexP
-    exact ⟨hk, fun ent => ⟨hk, fun name => ih _ cont h⟩⟩
+    refine ⟨hk, fun ent => ?_⟩
+    simp only
+    split
+    · trivial
+    · exact ⟨hk, fun name => ih _ _ cont h⟩
 
 theorem readInodeP_wf (k tblStart blockSize b o : Nat) : WF noneYet (readInodeP k tblStart blockSize b o) := by
   unfold readInodeP
@@ -201,23 +205,37 @@ theorem readInodeP_wf (k tblStart blockSize b o : Nat) : WF noneYet (readInodeP 
   split
   · trivial
   · split
-    · exact ⟨hk, fun d => ⟨hk, fun ex => trivial⟩⟩
+    · refine ⟨hk, fun d => ?_⟩
+      simp only
+      split
+      · trivial
+      · exact ⟨hk, fun ex => trivial⟩
     · split
-      · exact ⟨hk, fun d => ⟨hk, fun tgt => trivial⟩⟩
+      · refine ⟨hk, fun d => ?_⟩
+        simp only
+        split
+        · trivial
+        · exact ⟨hk, fun tgt => trivial⟩
       · split
         · refine ⟨hk, fun d => ?_⟩
           simp only
           split
           · trivial
-          · exact ⟨hk, fun ex => trivial⟩
+          · split
+            · trivial
+            · exact ⟨hk, fun ex => trivial⟩
         · split
-          · exact ⟨hk, fun d => ⟨hk, fun tgt => ⟨hk, fun x => trivial⟩⟩⟩
+          · refine ⟨hk, fun d => ?_⟩
+            simp only
+            split
+            · trivial
+            · exact ⟨hk, fun tgt => ⟨hk, fun x => trivial⟩⟩
           · split
             · refine ⟨hk, fun d => ?_⟩
               simp only
               split
               · trivial
-              · exact readIndexP_wf k _ hk _ _ _ (fun _ => trivial)
+              · exact readIndexP_wf k _ hk _ _ _ _ (fun _ => trivial)
             · split
               · exact ⟨hk, fun d => trivial⟩
               · split
@@ -342,8 +360,8 @@ theorem readKeyP_wf {α : Type} (x : XR) (fl : Nat → Bool) (h1 : fl 1 = true) 
   · trivial
   · exact ⟨h1, fun kb => hcont _⟩
 
-theorem readValueP_wf {α : Type} (x : XR) (fl : Nat → Bool) (h1 : fl 1 = true) (keyType : Nat) (cont : Bytes → Prog α)
-    (hcont : ∀ v fl', (∀ k, fl k = true → fl' k = true) → WF fl' (cont v)) : WF fl (x.readValueP keyType cont) := by
+theorem readValueP_wf {α : Type} (x : XR) (fl : Nat → Bool) (h1 : fl 1 = true) (ab keyType : Nat) (cont : Bytes → Prog α)
+    (hcont : ∀ v fl', (∀ k, fl k = true → fl' k = true) → WF fl' (cont v)) : WF fl (x.readValueP ab keyType cont) := by
   unfold XR.readValueP
   refine ⟨h1, fun v => ?_⟩
   split
@@ -353,12 +371,19 @@ theorem readValueP_wf {α : Type} (x : XR) (fl : Nat → Bool) (h1 : fl 1 = true
     · trivial
     · refine ⟨h1, fun p => ?_⟩
       have h1' : (fun j => j == 1 || fl j) 1 = true := by simp
-      refine ⟨h1', fun v2 => ⟨h1', fun val => ?_⟩⟩
-      apply hcont
-      intro k hk
-      simp only [Bool.or_eq_true]
-      exact Or.inr (Or.inr hk)
-  · exact ⟨h1, fun val => hcont _ fl (fun _ h => h)⟩
+      refine ⟨h1', fun v2 => ?_⟩
+      simp only
+      split
+      · trivial
+      · refine ⟨h1', fun val => ?_⟩
+        apply hcont
+        intro k hk
+        simp only [Bool.or_eq_true]
+        exact Or.inr (Or.inr hk)
+  · simp only
+    split
+    · trivial
+    · exact ⟨h1, fun val => hcont _ fl (fun _ h => h)⟩
 
 theorem readPairsP_wf (x : XR) : ∀ (n : Nat) (acc : List (Bytes × Bytes)) (fl : Nat → Bool), fl 1 = true → WF fl (x.readPairsP n acc) := by
   intro n
@@ -543,6 +568,10 @@ theorem readValue_ool_obs {f : File} {unc : Codec} (hc : CodecOK unc) (x : XR) (
           by_cases hd : sd = 0
           · subst hd
             simp only [ne_eq, not_true_eq_false, if_false, set_same] at hok ⊢
+            split at hok
+            · simp only [exec] at hok; cases hok
+            rename_i halloc
+            simp only [halloc, if_false, exec, set_same] at hok ⊢
             have ce := read_coherent hc cd (leAt bd 0 4)
             have we := read_start_limit f unc md (leAt bd 0 4)
             generalize MetaReader.read true f unc md (leAt bd 0 4) = re at hok ce we ⊢
@@ -739,43 +768,62 @@ theorem readdirP_nofail (k : Nat) (it : Rd) : NoFail loopFuelSt (readdirP k it) 
       · intro q; exact readdirEntP_nofail _ _
   · exact readdirEntP_nofail _ _
 
-theorem readIndexP_nofail {α : Type} (e : Status) (k : Nat) :
-    ∀ (n : Nat) (acc : Bytes) (cont : Bytes → Prog α), (∀ bs, NoFail e (cont bs)) → NoFail e (readIndexP k n acc cont) := by
+theorem readIndexP_nofail {α : Type} (e : Status) (he : errAlloc ≠ e) (k : Nat) :
+    ∀ (n im : Nat) (acc : Bytes) (cont : Bytes → Prog α), (∀ bs, NoFail e (cont bs)) → NoFail e (readIndexP k n im acc cont) := by
   intro n
   induction n with
-  | zero => intro acc cont h; exact h acc
+  | zero => intro im acc cont h; exact h acc
   | succ n ih =>
-    intro acc cont h
+    intro im acc cont h
     unfold readIndexP
-    intro ent name
-    exact ih _ cont h
+    intro ent
+    simp only
+    split
+    · exact he
+    · intro name
+      exact ih _ _ cont h
 
-/-- `read_inode` fails of its own accord only with `SQFS_ERROR_UNSUPPORTED` or `SQFS_ERROR_OVERFLOW` -/
-theorem readInodeP_nofail (k tblStart blockSize b o : Nat) (e : Status) (h1 : errUnsupported ≠ e) (h2 : errOverflow ≠ e) :
-    NoFail e (readInodeP k tblStart blockSize b o) := by
+/-- `read_inode` fails of its own accord only with `SQFS_ERROR_UNSUPPORTED`, `SQFS_ERROR_OVERFLOW` or
+`SQFS_ERROR_ALLOC` -/
+theorem readInodeP_nofail (k tblStart blockSize b o : Nat) (e : Status) (h1 : errUnsupported ≠ e) (h2 : errOverflow ≠ e)
+    (h3 : errAlloc ≠ e) : NoFail e (readInodeP k tblStart blockSize b o) := by
   unfold readInodeP
   intro h
   simp only
   split
   · exact h1
   · split
-    · intro d ex; trivial
+    · intro d
+      simp only
+      split
+      · exact h3
+      · intro ex; trivial
     · split
-      · intro d tgt; trivial
+      · intro d
+        simp only
+        split
+        · exact h3
+        · intro tgt; trivial
       · split
         · intro d
           simp only
           split
           · exact h2
-          · intro ex; trivial
+          · split
+            · exact h3
+            · intro ex; trivial
         · split
-          · intro d tgt x; trivial
+          · intro d
+            simp only
+            split
+            · exact h3
+            · intro tgt x; trivial
           · split
             · intro d
               simp only
               split
               · trivial
-              · exact readIndexP_nofail e k _ _ _ (fun _ => trivial)
+              · exact readIndexP_nofail e h3 k _ _ _ _ (fun _ => trivial)
             · split
               · intro d; trivial
               · split
@@ -901,7 +949,7 @@ theorem resolveGoP_fuel {f : File} {unc : Codec} (hc : CodecOK unc) (d : DirRd) 
           simp only
           intro h
           cases h
-          exact herr loopFuelSt (by decide) (readInodeP_nofail _ _ _ _ _ loopFuelSt (by decide) (by decide)) rfl
+          exact herr loopFuelSt (by decide) (readInodeP_nofail _ _ _ _ _ loopFuelSt (by decide) (by decide) (by decide)) rfl
         | ok ino =>
           simp only
           cases hod : d.openDir ino with
